@@ -759,8 +759,14 @@ func LockReleased(l LockState) {
 	if t := s.taskOf(g); t != nil {
 		for i := len(t.heldL) - 1; i >= 0; i-- {
 			if t.heldL[i] == l {
-				t.heldL = append(t.heldL[:i], t.heldL[i+1:]...)
-				t.heldM = append(t.heldM[:i], t.heldM[i+1:]...)
+				// manual shift: copy()/append(x, y...) go through runtime.slicecopy,
+				// which is race-annotated even in norace functions
+				for j := i; j+1 < len(t.heldL); j++ {
+					t.heldL[j] = t.heldL[j+1]
+					t.heldM[j] = t.heldM[j+1]
+				}
+				t.heldL = t.heldL[:len(t.heldL)-1]
+				t.heldM = t.heldM[:len(t.heldM)-1]
 				break
 			}
 		}
@@ -783,7 +789,9 @@ func HeldLocks() (modes []int, known bool) {
 	t := s.taskOf(g)
 	if t != nil {
 		known = true
-		modes = append(modes, t.heldM...)
+		for _, m := range t.heldM {
+			modes = append(modes, m)
+		}
 	}
 	s.mu.Unlock()
 	RaceEnable()
